@@ -67,6 +67,9 @@ pub struct FakeRedis {
     pub log_enabled: std::sync::atomic::AtomicBool,
 }
 
+/// Last element of a scripted reply queue: "execute the command for real from now on".
+pub const SCRIPT_END: &[u8] = b"__SCRIPT_END__";
+
 pub fn bulk(b: &[u8]) -> RespVec {
     Resp::Bulk(BulkStr::Str(b.to_vec()))
 }
@@ -202,14 +205,23 @@ impl FakeRedis {
         }
         let name = String::from_utf8_lossy(&argv[0]).to_uppercase();
         if let Some(key) = argv.get(1) {
+            let mut fall_through = false;
             if let Some(q) = st.script.get_mut(&(name.clone(), key.clone())) {
                 if q.len() > 1 {
                     if let Some(r) = q.pop_front() {
                         return r;
                     }
                 } else if let Some(r) = q.front() {
-                    return r.clone();
+                    // the sentinel ends the script: from now on the command is really executed
+                    if *r == Resp::Simple(SCRIPT_END.to_vec()) {
+                        fall_through = true;
+                    } else {
+                        return r.clone();
+                    }
                 }
+            }
+            if fall_through {
+                st.script.remove(&(name.clone(), key.clone()));
             }
         }
         const WRONGTYPE: &str = "WRONGTYPE Operation against a key holding the wrong kind of value";
